@@ -267,7 +267,24 @@ def namespace_sites(rep, idx):
                 continue
             seen.add(x)
             work.extend(s for s, lab in g.succ[x])
-        rep.check(bool(ins) and g.exit.id not in seen, "C18.1", site, "every path that inserts the item also records its name(s)",
+        after_ok = bool(ins) and g.exit.id not in seen
+        if not after_ok and ins and upd:
+            # the name may be recorded before the range is inserted: then every path to the insertion passed a recording statement
+            dom = g.dominators()
+            # for the named / anonymous split both recording statements sit in the two arms of one `if`: the arms' common test node
+            # dominates; accept when every path from the entry to the insertion goes through some recording statement
+            seen2, work2 = set(), [g.entry.id]
+            reach_ins = False
+            while work2:
+                x = work2.pop()
+                if x in seen2 or x in upd:
+                    continue
+                seen2.add(x)
+                if x in ins:
+                    reach_ins = True
+                work2.extend(s_ for s_, lab in g.succ[x])
+            after_ok = not reach_ins
+        rep.check(after_ok, "C18.1", site, "every path that inserts the item also records its name(s)",
                   "some path inserts without updating the namespace")
         if spec.endswith("add_window"):
             ext = ns_calls(c, "extend")
